@@ -46,7 +46,8 @@ Section invr.
 
   Lemma InvR_empty : InvR empty_state.
   Proof.
-    split; [split|split; [|split]]; cbn; intros; try (destruct tls); try (destruct udp); cbn in *;
+    split; [split|split; [|split; [|split]]]; try (intros udp c1 c2 l1 l2 t1 t2 H1; destruct udp; cbn in H1; rewrite lookup_empty in H1; discriminate);
+      cbn; intros; try (destruct tls); try (destruct udp); cbn in *;
       match goal with H : ∅ !! _ = Some _ |- _ => rewrite lookup_empty in H; discriminate end.
   Qed.
 
@@ -55,39 +56,41 @@ Section invr.
 
   Lemma InvR_set_clusters s m :
     InvR s -> (forall i c v, m !! i = Some c -> c_hc c = Some v -> hc_valid v = true) -> InvR (set_clusters s m).
-  Proof. intros ([Hhc Hfk] & Hb & Ht & Hc) Hm. split; [split|split; [|split]]; assumption. Qed.
+  Proof. intros ([Hhc Hfk] & Hb & Ht & Hc & Hg) Hm. split; [split|split; [|split; [|split]]]; assumption. Qed.
 
   Lemma InvR_set_f tls s m :
     InvR s -> (forall k f, m !! k = Some f -> k = front_key f /\ (f_pos f <? 3) = true) -> InvR (set_f tls s m).
   Proof.
-    intros ([Hhc Hfk] & Hb & Ht & Hc) Hm. split; [split|split; [|split]].
+    intros ([Hhc Hfk] & Hb & Ht & Hc & Hg) Hm. split; [split|split; [|split; [|split]]].
     - destruct tls; exact Hhc.
     - intros tls' k f. destruct tls, tls'; cbn; first [apply Hm | apply (Hfk false k f) | apply (Hfk true k f)].
     - destruct tls; exact Hb.
     - intros udp. destruct tls, udp; first [exact (Ht false) | exact (Ht true)].
     - destruct tls; exact Hc.
+    - intros udp. destruct tls, udp; first [exact (Hg false) | exact (Hg true)].
   Qed.
 
   Lemma InvR_set_backends s m :
     InvR s -> (forall c l, m !! c = Some l -> isort bk_le l = l /\ NoDup (bkey <$> l)) -> InvR (set_backends s m).
-  Proof. intros ([Hhc Hfk] & Hb & Ht & Hc) Hm. split; [split|split; [|split]]; assumption. Qed.
+  Proof. intros ([Hhc Hfk] & Hb & Ht & Hc & Hg) Hm. split; [split|split; [|split; [|split]]]; assumption. Qed.
 
   Lemma InvR_set_t udp s m :
-    InvR s -> (forall c l, m !! c = Some l -> NoDup (t_addr <$> l)) -> InvR (set_t udp s m).
+    InvR s -> (forall c l, m !! c = Some l -> NoDup (t_addr <$> l)) -> gInvT m -> InvR (set_t udp s m).
   Proof.
-    intros ([Hhc Hfk] & Hb & Ht & Hc) Hm. split; [split|split; [|split]].
+    intros ([Hhc Hfk] & Hb & Ht & Hc & Hg) Hm Hgm. split; [split|split; [|split; [|split]]].
     - destruct udp; exact Hhc.
     - intros tls. destruct udp, tls; first [exact (Hfk false) | exact (Hfk true)].
     - destruct udp; exact Hb.
     - intros udp' c l. destruct udp, udp'; cbn; first [apply Hm | apply (Ht false c l) | apply (Ht true c l)].
     - destruct udp; exact Hc.
+    - intros udp'. destruct udp, udp'; cbn; first [exact Hgm | exact (Hg false) | exact (Hg true)].
   Qed.
 
   Lemma InvR_set_certs s m :
     InvR s ->
     (forall a b fp k, m !! a = Some b -> b !! fp = Some k ->
        fingerprint (k_pem k) = Some fp /\ resolve inames k = Some (k_names k)) -> InvR (set_certs s m).
-  Proof. intros ([Hhc Hfk] & Hb & Ht & Hc) Hm. split; [split|split; [|split]]; assumption. Qed.
+  Proof. intros ([Hhc Hfk] & Hb & Ht & Hc & Hg) Hm. split; [split|split; [|split; [|split]]]; assumption. Qed.
 
   Lemma resolve_stored k names :
     resolve inames k = Some names -> resolve inames (Cert (k_pem k) names (k_rest k)) = Some names.
@@ -118,7 +121,7 @@ Section invr.
 
   Theorem InvR_dispatch s r : InvR s -> InvR (fst (dispatch s r)).
   Proof.
-    intros HI. pose proof HI as ([Hhc Hfk] & Hb & Ht & Hc).
+    intros HI. pose proof HI as ([Hhc Hfk] & Hb & Ht & Hc & Hg).
     destruct r; cbn [dispatch].
     - unfold add_cluster.
       assert (Hins : hc_ok_cluster c -> InvR (set_clusters s (<[id:=c]> (clusters s)))).
@@ -141,16 +144,52 @@ Section invr.
       apply InvR_set_f; [exact HI|]. intros kk ff H. look_ins H; [split; [reflexivity|exact Ep]|apply (Hfk tls kk ff H)].
     - unfold remove_front. destruct (get_f tls s !! front_key f); cbn [fst]; auto.
       apply InvR_set_f; [exact HI|]. intros kk ff H. look_ins H. apply (Hfk tls kk ff H).
-    - unfold add_tfront. destruct (bool_decide (t_addr t ∈ (t_addr <$> default [] (get_t udp s !! c)))) eqn:Hin; cbn [fst];
-        (apply InvR_set_t; [exact HI|]); intros c0 l H; look_ins H; try (apply (Ht udp c0 l H)).
-      + destruct (get_t udp s !! c) eqn:E; cbn; [apply (Ht udp c _ E)|constructor].
-      + apply bool_decide_eq_false in Hin. rewrite fmap_app. apply NoDup_app. split; [|split].
-        * destruct (get_t udp s !! c) eqn:E; cbn; [apply (Ht udp c _ E)|constructor].
-        * intros x Hx Hx'. cbn in Hx'. apply elem_of_list_singleton in Hx'. subst x. apply Hin. exact Hx.
-        * cbn. apply NoDup_singleton.
+    - unfold add_tfront. destruct (addr_elsewhere (get_t udp s) c (t_addr t)) eqn:Hel; [exact HI|].
+      assert (Hbucket : forall l, get_t udp s !! c = Some l -> default [] (get_t udp s !! c) = l) by (intros l E; rewrite E; reflexivity).
+      destruct (bool_decide (t_addr t ∈ (t_addr <$> default [] (get_t udp s !! c)))) eqn:Hin; cbn [fst].
+      + apply InvR_set_t; [exact HI| |].
+        * intros c0 l H; look_ins H; [|apply (Ht udp c0 l H)].
+          destruct (get_t udp s !! c) eqn:E; cbn; [apply (Ht udp c _ E)|constructor].
+        * destruct (get_t udp s !! c) as [l0|] eqn:E; cbn [default].
+          -- rewrite insert_id by exact E. apply (Hg udp).
+          -- intros c1 c2 l1 l2 t1 t2 H1 H2 I1 I2 Ea.
+             destruct (decide (c1 = c)) as [->|N1]; [rewrite lookup_insert in H1; inversion H1; subst; inversion I1|].
+             destruct (decide (c2 = c)) as [->|N2]; [rewrite lookup_insert in H2; inversion H2; subst; inversion I2|].
+             rewrite lookup_insert_ne in H1, H2 by congruence. exact (Hg udp c1 c2 l1 l2 t1 t2 H1 H2 I1 I2 Ea).
+      + apply bool_decide_eq_false in Hin. apply InvR_set_t; [exact HI| |].
+        * intros c0 l H; look_ins H; [|apply (Ht udp c0 l H)].
+          rewrite fmap_app. apply NoDup_app. split; [|split].
+          -- destruct (get_t udp s !! c) eqn:E; cbn; [apply (Ht udp c _ E)|constructor].
+          -- intros x Hx Hx'. cbn in Hx'. apply elem_of_list_singleton in Hx'. subst x. apply Hin. exact Hx.
+          -- cbn. apply NoDup_singleton.
+        * assert (Hno : forall c' l', c' <> c -> get_t udp s !! c' = Some l' -> t_addr t ∉ (t_addr <$> l')).
+          { intros c' l' Hne Hl' Ha. apply not_true_iff_false in Hel. apply Hel. apply addr_elsewhere_true. exists c', l'. auto. }
+          assert (Hown : forall x, x ∈ default [] (get_t udp s !! c) ++ [t] -> x = t \/ (exists l0, get_t udp s !! c = Some l0 /\ x ∈ l0)).
+          { intros x Hx. apply elem_of_app in Hx as [Hx|Hx]; [|left; apply elem_of_list_singleton in Hx; exact Hx].
+            right. destruct (get_t udp s !! c) as [l0|]; cbn in Hx; [exists l0; auto|inversion Hx]. }
+          intros c1 c2 l1 l2 t1 t2 H1 H2 I1 I2 Ea.
+          destruct (decide (c1 = c)) as [->|N1]; destruct (decide (c2 = c)) as [->|N2]; try reflexivity.
+          -- rewrite lookup_insert in H1. inversion H1; subst l1. rewrite lookup_insert_ne in H2 by congruence.
+             destruct (Hown t1 I1) as [->|[l0 [E0 I0]]].
+             ++ exfalso. apply (Hno c2 l2 N2 H2). rewrite Ea. apply elem_of_list_fmap. exists t2. auto.
+             ++ symmetry. exact (Hg udp c2 c l2 l0 t2 t1 H2 E0 I2 I0 (eq_sym Ea)).
+          -- rewrite lookup_insert in H2. inversion H2; subst l2. rewrite lookup_insert_ne in H1 by congruence.
+             destruct (Hown t2 I2) as [->|[l0 [E0 I0]]].
+             ++ exfalso. apply (Hno c1 l1 N1 H1). rewrite <- Ea. apply elem_of_list_fmap. exists t1. auto.
+             ++ exact (Hg udp c1 c l1 l0 t1 t2 H1 E0 I1 I0 Ea).
+          -- rewrite lookup_insert_ne in H1, H2 by congruence. exact (Hg udp c1 c2 l1 l2 t1 t2 H1 H2 I1 I2 Ea).
     - unfold remove_tfront. destruct (get_t udp s !! c) eqn:E; cbn [fst]; auto.
       assert (HI' : InvR (set_t udp s (<[c:=filter (fun x : tfront => t_addr x <> t_addr t) l]> (get_t udp s)))).
-      { apply InvR_set_t; [exact HI|]. intros c0 l0 H. look_ins H; [apply NoDup_fmap_filter; apply (Ht udp c _ E)|apply (Ht udp c0 l0 H)]. }
+      { apply InvR_set_t; [exact HI| |].
+        - intros c0 l0 H. look_ins H; [apply NoDup_fmap_filter; apply (Ht udp c _ E)|apply (Ht udp c0 l0 H)].
+        - intros c1 c2 l1 l2 t1 t2 H1 H2 I1 I2 Ea.
+          assert (Hsub : forall c0 l0 x, <[c:=filter (fun x : tfront => t_addr x <> t_addr t) l]> (get_t udp s) !! c0 = Some l0 -> x ∈ l0 ->
+                                       exists l0', get_t udp s !! c0 = Some l0' /\ x ∈ l0').
+          { intros c0 l0 x H0 I0. destruct (decide (c0 = c)) as [->|N0].
+            - rewrite lookup_insert in H0. inversion H0; subst. apply elem_of_list_filter in I0 as [_ I0]. exists l. auto.
+            - rewrite lookup_insert_ne in H0 by congruence. exists l0. auto. }
+          destruct (Hsub c1 l1 t1 H1 I1) as (l1' & E1 & J1). destruct (Hsub c2 l2 t2 H2 I2) as (l2' & E2 & J2).
+          exact (Hg udp c1 c2 l1' l2' t1 t2 E1 E2 J1 J2 Ea). }
       destruct (_ =? _)%nat; cbn [fst]; exact HI'.
     - unfold add_backend. cbn [fst]. apply InvR_set_backends; [exact HI|]. intros c0 l H. look_ins H; [|apply (Hb c0 l H)].
       split; [apply isort_idem, bk_le_total|].
